@@ -220,7 +220,13 @@ def run_scenario(ctx, idx, kinds, max_points, cases):
                 again = ds.read_tree(base)
                 same, diffp = same_final(again, final, ids)
                 if not (doc3 and doc3.get('ok')) or not same:
-                    ctx.violation('re-running after %s at point %d does not reach the uninterrupted final state (%s)' % (kind, j, diffp[:3] or out3[:120]), r2)
+                    only_manifests = bool(doc3 and doc3.get('ok')) and all(ds.is_manifest_name(os.path.basename(q)) for q in diffp)
+                    noop = bool(doc3 and doc3.get('ok')) and not doc3['data'].get('applied')
+                    if only_manifests and noop and ctx.is_known('K7c'):
+                        # class K7c: all file changes were done, only (stale) manifests differ, the re-run took the no-change shortcut
+                        ctx.known_finding('K7c', KNOWN['K7c'])
+                    else:
+                        ctx.violation('re-running after %s at point %d does not reach the uninterrupted final state (%s)' % (kind, j, diffp[:3] or out3[:120]), r2)
         # Coq case: trace + abort prefixes
         obs_tr = cq.clist([cq.cpair(cq.cN(a), cq.cN(b), cq.cstr(c)) for a, b, c in ctrace])
         prefs = cq.clist([cq.cpair(cq.cnat(j), ds.c_obs_after(universe, visible(a), ids)) for j, a in prefixes])
@@ -233,7 +239,8 @@ def run_scenario(ctx, idx, kinds, max_points, cases):
         sb.close()
 
 KNOWN = {'K7a': 'a permission error outside write_atomic (backup copy, remove_file, create_dir_all of snapshot dirs) is reported as E_UNEXPECTED instead of the stable E_IO_PERMISSION_DENIED',
-         'K7b': 'rollback ignores remove_file errors: it exits 0 and records rollback_delete although the file is still there'}
+         'K7b': 'rollback ignores remove_file errors: it exits 0 and records rollback_delete although the file is still there',
+         'K7c': 're-running deploy after an interruption between the file writes and the manifest writes takes the no-change shortcut and never rewrites the stale manifests'}
 
 def rollback_faults(ctx, nscen, kinds):
     """rollback under faults (oracle only): old-or-new, non-zero exit, re-run reaches the uninterrupted result"""
